@@ -113,17 +113,12 @@ inline void doStore(State &S, const Val &p, const Val &v, unsigned n, const Inst
   if (olo == ohi) {
     eraseScalars(D, olo, olo + n);
     if (!(v.k == Val::INT && n == 1)) D.scalars[(int64_t)olo] = {n, v};
-    for (unsigned i = 0; i < n; i++) {
-      ByteCell c = cellOfVal(v, i);
-      if (olo + i < (i128)D.bytes.size()) D.bytes[(size_t)(olo + i)] = c; else joinCell(D.rest, c);
-    }
+    for (unsigned i = 0; i < n; i++) D.setStrong(olo + i, cellOfVal(v, i));
   } else {
     eraseScalars(D, olo, ohi + n);
-    for (i128 o = olo; o < ohi + n; o++) {
-      if (o >= (i128)D.bytes.size()) { for (unsigned i = 0; i < n; i++) joinCell(D.rest, cellOfVal(v, i)); break; }
-      if (o < 0) continue;
-      for (unsigned i = 0; i < n; i++) joinCell(D.bytes[(size_t)o], cellOfVal(v, i));   // weak, byte position unknown
-    }
+    ByteCell acc; acc.cs.reset(); acc.prov = 0;
+    for (unsigned i = 0; i < n; i++) joinCell(acc, cellOfVal(v, i));
+    D.joinRange(olo, ohi + n, acc);     // weak, byte position unknown
   }
 }
 
@@ -149,6 +144,18 @@ inline Val loadGlobalConst(State &S, const Region &R, Type *ty, i128 olo, i128 o
   return ty->isIntegerTy() ? Val::top(ty->getIntegerBitWidth()) : Val::unk();
 }
 
+inline ByteCell summariseD(const RegionData &D, i128 lo, i128 hi) {
+  ByteCell acc; acc.cs.reset(); acc.prov = 0;
+  if (lo < 0) lo = 0;
+  for (i128 o = lo; o < hi && o < (i128)D.bytes.size(); o++) joinCell(acc, D.bytes[(size_t)o]);
+  if (hi > (i128)D.bytes.size()) {
+    i128 b = std::max(lo, (i128)D.bytes.size());
+    i128 covered = 0;
+    for (auto it = D.sparse.lower_bound((int64_t)b); it != D.sparse.end() && it->first < hi; ++it) { joinCell(acc, it->second); covered++; }
+    if (covered < hi - b) joinCell(acc, D.rest);
+  }
+  return acc;
+}
 inline Val doLoad1(State &S, const Val &p, Type *ty, const Instruction *I);
 inline Val doLoad(State &S, const Val &p, Type *ty, const Instruction *I) {
   Val v = doLoad1(S, p, ty, I);
@@ -163,9 +170,9 @@ inline Val doLoad1(State &S, const Val &p, Type *ty, const Instruction *I) {
   Region &R = S.regions[p.reg];
   if (R.kind == RK_ERRNO) return S.errnoSet ? S.errnoVal : Val::top(32);
   i128 olo, ohi; offsetBounds(S, p, olo, ohi);
-  if (R.gv && R.gv->isConstant() && R.gv->hasInitializer()) return loadGlobalConst(S, R, ty, olo, ohi, n, &p.kb);
+  if (R.gv && R.gv->hasInitializer() && (R.gv->isConstant() || !R.d)) return loadGlobalConst(S, R, ty, olo, ohi, n, &p.kb);
   const RegionData &D = R.rd();
-  auto cellAt = [&](i128 o) -> const ByteCell & { return (o >= 0 && o < (i128)D.bytes.size()) ? D.bytes[(size_t)o] : D.rest; };
+  auto cellAt = [&](i128 o) -> const ByteCell & { return D.get(o); };
   if (olo == ohi) {
     auto it = D.scalars.find((int64_t)olo);
     if (it != D.scalars.end() && it->second.first == n) {
@@ -192,27 +199,18 @@ inline Val doLoad1(State &S, const Val &p, Type *ty, const Instruction *I) {
   }
   if (!ty->isIntegerTy()) return Val::unk();
   if (n == 1) {
-    ByteCell acc; acc.cs.reset(); acc.prov = 0;
-    for (i128 o = std::max(olo, (i128)0); o <= ohi; o++) {
-      if (o >= (i128)D.bytes.size()) { joinCell(acc, D.rest); break; }
-      joinCell(acc, D.bytes[(size_t)o]);
-    }
+    ByteCell acc = summariseD(D, olo, ohi + 1);
     return Val::charset(w, acc.cs, acc.prov);
   }
-  uint8_t prov = D.rest.prov;
-  for (i128 o = std::max(olo, (i128)0); o <= ohi + n && o < (i128)D.bytes.size(); o++) prov |= D.bytes[(size_t)o].prov;
-  return Val::top(w, prov);
+  if (ohi - olo > 64) return Val::top(w, (uint8_t)(D.provAll | D.rest.prov));
+  return Val::top(w, summariseD(D, olo, ohi + n).prov);
 }
 
 // summary of source bytes [lo,hi)
 inline ByteCell summarise(const State &S, const Region &R, i128 lo, i128 hi) {
   ByteCell acc; acc.cs.reset(); acc.prov = 0;
   if (R.gv && R.gv->isConstant()) { acc.cs.set(); acc.prov = P_CONST; return acc; }
-  const RegionData &D = R.rd();
-  for (i128 o = std::max(lo, (i128)0); o < hi; o++) {
-    if (o >= (i128)D.bytes.size()) { joinCell(acc, D.rest); break; }
-    joinCell(acc, D.bytes[(size_t)o]);
-  }
+  acc = summariseD(R.rd(), lo, hi);
   if (acc.cs.none()) acc.cs.set();
   return acc;
 }
@@ -222,8 +220,7 @@ inline ByteCell readByte(State &S, const Region &R, i128 o) {
     Val v = loadGlobalConst(S, R, Type::getInt8Ty(M->getContext()), o, o, 1);
     ByteCell c; c.cs = v.hascs ? v.cs : std::bitset<256>().set(); c.prov = P_CONST; return c;
   }
-  const RegionData &D = R.rd();
-  return (o >= 0 && o < (i128)D.bytes.size()) ? D.bytes[(size_t)o] : D.rest;
+  return R.rd().get(o);
 }
 
 // memcpy/memmove
@@ -243,27 +240,24 @@ inline void doCopy(State &S, const Val &dst, const Val &src, Val n, const Instru
   if (!ok2 || src.k != Val::PTR || src.reg < 0) {
     ByteCell any; any.cs.set(); any.prov = P_OTHER;
     eraseScalars(D, dlo, dhi + nhi);
-    for (i128 o = dlo; o < dhi + nhi; o++) { if (o >= (i128)D.bytes.size()) { joinCell(D.rest, any); break; } if (o >= 0) D.bytes[(size_t)o] = any; }
+    D.joinRange(dlo, dhi + std::min(nhi, (i128)1 << 40), any);
     return;
   }
   Region &RS = S.regions[src.reg];
   i128 slo, shi; offsetBounds(S, src, slo, shi);
   std::map<int64_t, std::pair<unsigned, Val>> movedScalars;
-  if (dlo == dhi && slo == shi) {
+  if (dlo == dhi && slo == shi && nhi <= 65536) {
     // strong for the first nlo bytes, weak for the rest
     std::vector<ByteCell> tmp;
-    i128 lim = std::min(nhi, (i128)D.bytes.size() - dlo);
-    if (lim < 0) lim = 0;
-    for (i128 i = 0; i < lim; i++) tmp.push_back(readByte(S, RS, slo + i));
+    for (i128 i = 0; i < nhi; i++) tmp.push_back(readByte(S, RS, slo + i));
     if (!RS.gv) for (auto &kv : RS.rd().scalars) if (kv.first >= slo && kv.first + kv.second.first <= slo + nlo) movedScalars[(int64_t)(kv.first - slo + dlo)] = kv.second;
     eraseScalars(D, dlo, dlo + nhi);
-    for (i128 i = 0; i < lim; i++) { if (i < nlo) D.bytes[(size_t)(dlo + i)] = tmp[(size_t)i]; else joinCell(D.bytes[(size_t)(dlo + i)], tmp[(size_t)i]); }
-    if (dlo + nhi > (i128)D.bytes.size()) joinCell(D.rest, summarise(S, RS, slo, slo + nhi));
+    for (i128 i = 0; i < nhi; i++) { if (i < nlo) D.setStrong(dlo + i, tmp[(size_t)i]); else D.join(dlo + i, tmp[(size_t)i]); }
     for (auto &kv : movedScalars) D.scalars[kv.first] = kv.second;
   } else {
-    ByteCell sum = summarise(S, RS, slo, shi + nhi);
+    ByteCell sum = summarise(S, RS, slo, shi + std::min(nhi, (i128)1 << 40));
     eraseScalars(D, dlo, dhi + nhi);
-    for (i128 o = dlo; o < dhi + nhi; o++) { if (o >= (i128)D.bytes.size()) { joinCell(D.rest, sum); break; } if (o >= 0) joinCell(D.bytes[(size_t)o], sum); }
+    D.joinRange(dlo, dhi + std::min(nhi, (i128)1 << 40), sum);
   }
 }
 
@@ -281,13 +275,11 @@ inline void doSet(State &S, const Val &dst, const Val &c, Val n, const Instructi
   Val c8 = c; if (c8.k == Val::INT && c8.w > 8) { int nc; c8 = castop(S, Instruction::Trunc, c8, 8, Type::getInt8Ty(M->getContext())); (void)nc; }
   ByteCell cell = cellOfVal(c8, 0);
   eraseScalars(D, dlo, dhi + nhi);
-  for (i128 o = dlo; o < dhi + nhi; o++) {
-    if (o >= (i128)D.bytes.size()) { joinCell(D.rest, cell); break; }
-    if (o < 0) continue;
-    if (dlo == dhi && o < dlo + nlo) D.bytes[(size_t)o] = cell; else joinCell(D.bytes[(size_t)o], cell);
-  }
+  i128 cap = (i128)1 << 40;
+  if (dlo == dhi) { D.fillRange(dlo, dlo + std::min(nlo, cap), cell); if (nhi > nlo) D.joinRange(dlo + nlo, dlo + std::min(nhi, cap), cell); }
+  else D.joinRange(dlo, dhi + std::min(nhi, cap), cell);
   i128 slo, shi; regionSize(S, RD, slo, shi);
-  if (dlo == dhi && dlo <= (i128)D.bytes.size() && dlo + nlo >= shi) D.rest = cell;   // covers the untracked remainder completely
+  if (dlo == dhi && dlo <= (i128)D.bytes.size() && dlo + nlo >= shi) { D.rest = cell; D.sparse.clear(); }   // covers the remainder completely
 }
 
 // abstract strlen starting at p: [lo,hi]; hi = -1 means unbounded/unknown
@@ -299,7 +291,7 @@ inline void absStrlen(State &S, const Val &p, i128 &lo, i128 &hi) {
   if (olo != ohi) return;
   i128 slo, shi; regionSize(S, R, slo, shi);
   bool first = true;
-  i128 lim = R.gv ? shi : (i128)R.rd().bytes.size();
+  i128 lim = R.gv ? shi : R.rd().scanLimit();
   for (i128 o = olo; o < lim; o++) {
     ByteCell c = readByte(S, R, o);
     if (c.cs[0]) {
